@@ -1335,6 +1335,9 @@ class Partitions(Histories):
                 continue          # two partitions delegate one resource: refused as documented
             cbm = steps[-1]['cbm']
             tag = 'all partitions merged in order %s: ' % [op[1] for op in h]
+            if cbm is None:
+                fails.append(tag + 'the combined model holds no node')
+                continue
             got = {n[0]: n for n in cbm[0]}
             for nid, n in got.items():
                 a = an.get(nid)
